@@ -25,6 +25,7 @@ pub mod c13;
 pub mod c16;
 pub mod calendar;
 pub mod c17;
+pub mod c18;
 pub mod c19;
 pub mod c20;
 pub mod childproc;
@@ -63,6 +64,7 @@ pub fn dispatch(prop: &str, tier: &str, seed: u64, only: Option<(String, u64)>) 
         "C13" => c13::run(&mut rep),
         "C16" => c16::run(&mut rep),
         "C17" => c17::run(&mut rep),
+        "C18" => c18::run(&mut rep),
         "C19" => c19::run(&mut rep),
         "C20" => c20::run(&mut rep),
         _ => {
@@ -89,6 +91,7 @@ pub fn child(args: &[String]) -> i32 {
     }
     match args[0].as_str() {
         "c02" => c02::child_main(&args[1..]),
+        "c18" => c18::child_main(&args[1..]),
         "c16" => c16::child_main(&args[1..]),
         "c08crash" => c08::child_crash(&args[1..]),
         _ => 2,
